@@ -583,6 +583,9 @@ class GtkDocAnnotations(OrderedDict):
     def __copy__(self):
         return GtkDocAnnotations(self, position=self.position)
 
+    def copy(self):
+        return self.__copy__()
+
 
 class GtkDocAnnotatable(object):
     '''
